@@ -577,9 +577,10 @@ class Exec:
         Encoding: either some first index i exits (all j<i fall through), or all fall through."""
         if not (isinstance(it, Sym) and isinstance(it.ty, SeqTy)):
             raise PyvcUnsupported(f"for over {it!r} needs a loop contract")
-        key = (self.cur_key, "for", s.lineno)
-        if key in self.loop_specs:
-            yield from self.loop_specs[key](self, s, it, env, st)
+        ordinal = self.loop_ordinal(s, ast.For)
+        spec = self.loop_specs.get((self.cur_key, "for", ordinal))
+        if spec is not None:
+            yield from self.contracted_for(s, it, env, st, spec, ordinal)
             return
         assigned = {n.id for b in s.body for n in ast.walk(b) if isinstance(n, ast.Name) and isinstance(n.ctx, ast.Store)}
         tnames = {n.id for n in ast.walk(s.target) if isinstance(n, ast.Name)}
@@ -620,6 +621,44 @@ class Exec:
                              z3.ForAll([j], z3.Implies(z3.And(j >= 0, j < i), noexit_j)))
             if self.feasible(st_e.pc):
                 yield (kind, val, env3, st_e)
+
+    def contracted_for(self, s, it, env, st, spec, ordinal):
+        """for over a symbolic sequence with a sidecar invariant Inv(vars, i, xs):
+        (1) Inv(0) on entry  (2) Inv(i) /\ 0<=i<len, body => Inv(i+1)  (3) after the loop: Inv(len)"""
+        from .spec import NS
+        inv = spec["invariant"]
+        props = spec.get("props", ())
+        assigned = sorted({n.id for b in s.body for n in ast.walk(b) if isinstance(n, ast.Name) and isinstance(n.ctx, ast.Store)})
+        tnames = {n.id for n in ast.walk(s.target) if isinstance(n, ast.Name)}
+        assigned = [v for v in assigned if v in env and v not in tnames]
+        n = Sym(IntT, z3.Length(it.e))
+        self.obligations.append(Obligation(f"{self.cur_key}.for{ordinal}.invariant_on_entry", "loop-inv", list(st.hyps),
+                                           z3_bool(inv(NS(env), 0, it)), {"props": props}))
+        e2 = dict(env)
+        for v in assigned:
+            t = spec.get("types", {}).get(v) or ty_of(env[v])
+            if t is None:
+                raise PyvcUnsupported(f"for loop variable {v} has no symbolic type")
+            e2[v] = fresh(t, "loop_" + v)
+        i = fresh(IntT, "loop_i")
+        # (2) arbitrary iteration
+        st_i = st.assume(inv(NS(e2), i, it), i >= 0, i < n)
+        e3 = dict(e2)
+        self.assign(s.target, Sym(it.ty.elem, it.e[i.e]), e3, st_i)
+        for kind, val, e4, st4 in self.block(s.body, e3, st_i):
+            if kind in ("fall", "continue"):
+                self.obligations.append(Obligation(f"{self.cur_key}.for{ordinal}.invariant_preserved", "loop-inv", list(st4.hyps),
+                                                   z3_bool(inv(NS(e4), i + 1, it)), {"props": props}))
+            elif kind == "break":
+                raise PyvcUnsupported("break inside a contracted for loop")
+            else:
+                yield (kind, val, e4, st4)
+        # (3) after the loop
+        st_x = st.assume(inv(NS(e2), n, it))
+        if s.orelse:
+            yield from self.block(s.orelse, e2, st_x)
+        else:
+            yield ("fall", None, e2, st_x)
 
     def loop_ordinal(self, node, kinds):
         """ordinal of `node` among the loops of the function under execution (stable under unrelated edits)"""
@@ -1578,6 +1617,14 @@ class Exec:
                         self.obligations.append(Obligation(f"{callid}.arg_not_none.{pname}", "call-pre", list(st.hyps),
                                                            z3_bool(v_not(v_is_none(val))), {"callee": key}))
                     bound[pname] = v_unwrap(val)
+            elif not isinstance(val, Sym) and anns.get(pname) is not None and isinstance(val, (tuple, list, EmptyColl, PyDict, PySet, int, float, bool, str)):
+                # literal passed to a contract: give it the declared type
+                dt = arg_types.get(pname) or self.world.ann_to_ty(anns[pname], modpath)
+                if isinstance(dt, Ty) and not isinstance(dt, AbstractTy):
+                    try:
+                        bound[pname] = Sym(dt, coerce(val, dt))
+                    except PyvcUnsupported:
+                        pass
 
     def construct(self, cv, args, kw, st, where):
         ci = cv.ci
